@@ -89,8 +89,8 @@ impl Prop for C14 {
 	}
 	fn budget(&self, tier: Tier) -> (u64, u64) {
 		match tier {
-			Tier::Quick => (6_000, 70),
-			Tier::Thorough => (300_000, 900),
+			Tier::Quick => (30_000, 90),
+			Tier::Thorough => (600_000, 1200),
 		}
 	}
 
